@@ -701,3 +701,7 @@ def pvc_raises(ctx, st, exc):
 
 UNITS.append(Unit("C19", "jsonargparse._util:parse_value_or_config", pvc_setup, pvc_post, pvc_raises, max_paths=5000,
                   trusted=["Path(value, mode) raises TypeError unless value names a readable file (Path.__init__: its own unit)", "load_value: its own unit (C05)", "relative_path_context is change_to_path_dir(the path) (its own unit)"]))
+
+
+from contracts.any_units import is_pathlike_unit, typehint_init_unit  # noqa: E402
+UNITS += [is_pathlike_unit("C19"), typehint_init_unit("C19")]
